@@ -30,6 +30,15 @@ const KINDS: &[Kind] = &[
     Kind { id: "unresolved-name", top: Some("g{n} :: nope{n}"), stmt: Some("print(nope{n})"), lines: &[0] },
     Kind { id: "unresolved-name-in-call", top: None, stmt: Some("nope{n}(1)"), lines: &[0] },
     Kind { id: "duplicate-global", top: Some("dup{n} :: 1\ndup{n} :: 2"), stmt: None, lines: &[0, 1] },
+    // `{m}` / `{m2}` are modules other than the file the snippet is planted in
+    Kind { id: "use-collides-with-global", top: Some("dup{n} :: 1\nuse {m} as dup{n}"), stmt: None, lines: &[0, 1] },
+    Kind { id: "global-collides-with-use", top: Some("use {m} as dup{n}\ndup{n} :: 1"), stmt: None, lines: &[0, 1] },
+    Kind { id: "use-collides-with-imported-name", top: Some("from {m} use kk as dup{n}\nuse {m} as dup{n}"), stmt: None, lines: &[0, 1] },
+    Kind { id: "from-use-collides-with-global", top: Some("dup{n} :: 1\nfrom {m} use kk as dup{n}"), stmt: None, lines: &[0, 1] },
+    Kind { id: "global-collides-with-from-use", top: Some("from {m} use kk as dup{n}\ndup{n} :: 1"), stmt: None, lines: &[0, 1] },
+    Kind { id: "two-uses-one-alias", top: Some("use {m} as dup{n}\nuse {m2} as dup{n}"), stmt: None, lines: &[0, 1] },
+    Kind { id: "two-from-uses-one-name", top: Some("from {m} use kk as dup{n}\nfrom {m2} use kk as dup{n}"), stmt: None, lines: &[0, 1] },
+    Kind { id: "from-use-of-missing-name", top: Some("from {m} use nope{n}"), stmt: None, lines: &[0] },
     Kind { id: "assign-to-constant", top: None, stmt: Some("kk = 1"), lines: &[0] },
     Kind { id: "assign-to-local-constant", top: None, stmt: Some("lc{n} :: 1\nlc{n} = 2"), lines: &[1] },
     Kind { id: "operator-mismatch", top: Some("g{n} :: 1 + \"a\""), stmt: Some("z{n} :: 1 + \"a\""), lines: &[0] },
@@ -135,7 +144,12 @@ fn build(c: &Case) -> Option<Built> {
                 }
             }
             let first_line = lines.len() + 1;
-            let text = snippet.replace("{n}", "9");
+            let (m, m2) = match fi {
+                0 => ("other", "sub/deep"),
+                1 => ("sub/deep", "/main"),
+                _ => ("/other", "/main"),
+            };
+            let text = snippet.replace("{n}", "9").replace("{m2}", m2).replace("{m}", m);
             for l in text.split('\n') {
                 // conflict markers must start the line
                 if l.starts_with("<<<<<<<") {
